@@ -728,6 +728,10 @@ def step (st : St) (line : String) : St × String :=
               | none => true)
           | _ => false
         if donorMissing then (st, "bad-op")
+        else if rest.head? == some "noncanon" then
+          -- the same encapsulation written with a redundant LEB128 continuation byte: the decoder (the `leb128` crate,
+          -- `CC.Model.Leb`) reads the same number, the object is the same (`CC.Props.C07.noncanonical_leb_accepted`, D15)
+          ({ st with encs := setSlot st.encs j (some (x, s)) }, "ok")
         else ({ st with encs := setSlot st.encs j (some ({ x with targets := [] }, s)) }, "ok")
     | _, _ => (st, "bad-op")
   | ["pke_enc", ks, xs, p, ptx] =>
